@@ -57,6 +57,29 @@ Theorem linearizable_from_log : forall h log obs cmt,
 Proof. exact linearizable_from_log_proved. Qed.
 Print Assumptions linearizable_from_log.
 
+(* The checker decides the property for a given order: it accepts exactly the
+   linearization orders of well-formed histories (sound and complete). *)
+Theorem check_witness_iff : forall h lin,
+  check_witness h lin = true <-> wf_hist h /\ linearizes h lin.
+Proof. exact check_witness_iff_proved. Qed.
+Print Assumptions check_witness_iff.
+
+(* Hence, under the protocol-level hypotheses, the extracted checker accepts the
+   witness the harness builds from the recorded Update stream: a rejection of
+   that witness on a recorded history of the implementation means one of
+   C02/C03/C05/C06/C12 failed there (this is what the end-to-end monitor reports
+   as "the log order is not a linearization of the history"). *)
+Theorem log_witness_accepted : forall h log obs cmt,
+  wf_hist h ->
+  C05_at_most_once h log ->
+  C02_state_machine_safety h log obs cmt ->
+  C03_leader_completeness h log cmt ->
+  C12_completed_after_local_apply h log cmt ->
+  C06_read_index_not_stale h obs cmt ->
+  check_witness h (weave h log obs) = true.
+Proof. exact log_witness_accepted_proved. Qed.
+Print Assumptions log_witness_accepted.
+
 (* non-vacuity.  Two clients, a write that times out but takes effect, a read that
    observes it, a refused write: *)
 Example check_witness_accepts : check_witness ex_hist [1; 2; 3]%N = true.
